@@ -229,6 +229,8 @@ def generate(seed, tier="quick", faults=True):
                 cfgs.append(_cfg(gen))
                 cmeta.append("fresh")
                 j = len(cfgs) - 1
+            if gen.random() < 0.25:
+                ops.append({"op": "chdir"})
             ops.append({"op": "series", "cfg": j})
         elif r < 0.70 or not ops:
             ops.append({"op": "req", "spec": pick_req()})
@@ -366,6 +368,9 @@ class Run:
         self.sticky = None
         self.ops_done = 0
         self.pairs = set()
+        self.real_proc = 0
+        self.stored_by = {}
+        self.cwd_tag = ""
 
     def probe(self, name, n=1):
         self.probes[name] = self.probes.get(name, 0) + n
@@ -419,7 +424,7 @@ class Run:
         self.proc += 1
 
     def entry_files(self):
-        d = os.path.join(self.run_dir, CACHE_DIR)
+        d = os.path.join(self.run_dir, self.cwd_tag, CACHE_DIR)
         try:
             return sorted(os.listdir(d))
         except FileNotFoundError:
@@ -458,8 +463,9 @@ class Run:
     # -- invariant helpers ---------------------------------------------------------
     def abstract_state(self):
         files = self.entry_files()
-        valid = sum(1 for f in files if os.path.join(CACHE_DIR, f) in set(self.intact.values()) - self.bad_files)
-        bad = sum(1 for f in files if os.path.join(CACHE_DIR, f) in self.bad_files)
+        pre = os.path.join(self.cwd_tag, CACHE_DIR)
+        valid = sum(1 for f in files if os.path.join(pre, f) in set(self.intact.values()) - self.bad_files)
+        bad = sum(1 for f in files if os.path.join(pre, f) in self.bad_files)
         other = len(files) - valid - bad
         return f"v{min(valid, 3)}b{min(bad, 2)}o{min(other, 2)}"
 
@@ -471,7 +477,8 @@ class Run:
                 cands.append(op[1])
             elif op[0] == "RENAME":
                 cands.append(op[2])
-        out = [c for c in dict.fromkeys(cands) if c.startswith(CACHE_DIR + "/") and os.path.exists(os.path.join(self.run_dir, c))]
+        pre = (self.cwd_tag + "/" if self.cwd_tag else "") + CACHE_DIR + "/"
+        out = [c for c in dict.fromkeys(cands) if c.startswith(pre) and os.path.exists(os.path.join(self.run_dir, c))]
         return out
 
     def cause_of(self, res, i):
@@ -495,13 +502,16 @@ class Run:
 
         i = op["spec"]
         spec = self.rec["specs"][i]
-        skey = canon(spec)
+        skey = self.cwd_tag + canon(spec)
+        if self.cache is None:  # first direct request after a chdir (before any fault is armed)
+            self.new_process()
+            self.proc -= 1
         st, exp = self.expect(i)
         args = S.build_args(spec, reuse=self.rec.get("reuse_arrays", False))
         meta = self.rec["spec_meta"][i] if i < len(self.rec.get("spec_meta", [])) else {}
         rel = "same" if skey in self.intact else (f"nb:{meta.get('kind')}" if meta.get("rel") == "neighbour" else "fresh")
         self.states.add(f"{self.abstract_state()}|req|{rel}")
-        if meta.get("rel") == "neighbour" and canon(self.rec["specs"][meta["of"]]) in self.intact:
+        if meta.get("rel") == "neighbour" and self.cwd_tag + canon(self.rec["specs"][meta["of"]]) in self.intact:
             self.pairs.add(meta["kind"])
         should_hit = (spec["footprint"] and skey in self.intact and self.intact[skey] not in self.bad_files
                       and os.path.exists(os.path.join(self.run_dir, self.intact[skey])))
@@ -533,7 +543,10 @@ class Run:
             for kk in ("torn_bytes", "lost_suffix_writes", "dropped_unsynced_writes", "rename_mode"):
                 if info.get(kk):
                     self.fire("crash." + kk + ("=" + info[kk] if kk == "rename_mode" else ""))
+            os.chdir(self.run_dir)
             self.disk.reset_to_image(files, dirs)
+            os.makedirs(os.path.join(self.run_dir, self.cwd_tag), exist_ok=True)
+            os.chdir(os.path.join(self.run_dir, self.cwd_tag))
             self.log.add(k, "crash", a["at"], a.get("hit_kind"), a["model"], sorted((self.names(p), len(d)) for p, d in files.items()))
             # nothing this process acknowledged is trusted to have survived a
             # power loss; after a kill only entries this request touched are suspect
@@ -587,6 +600,13 @@ class Run:
             raise Violation("transparent", "no-exception", f"request {k} returned but the cache-less solve raises {exp}", {"op": k})
         cmpres = compare_result(res, exp, spec["precision"] == "double")
         if cmpres == "inexact":
+            # equality to rounding is all C12 promises between processes - but
+            # within one OS process a solve is bit-reproducible, so whatever this
+            # process solved or stored itself must come back bit for bit
+            src = self.stored_by.get(self.intact.get(skey))
+            if solved or src == self.real_proc:
+                raise Violation("transparent", "wrong-result", f"request {k} (spec {i}) is not bit-identical to the cache-less solve in the same process "
+                                f"({'solved' if solved else 'served from an entry this process stored'}): values were rounded on the way", {"op": k, "field": "rounded", "cause": ["rounding"]})
             self.probe("inexact_within_tolerance")
             cmpres = None
         if cmpres is not None:
@@ -610,6 +630,7 @@ class Run:
                 return  # a swallowed I/O error: the store is not acknowledged
             if len(stored) == 1:
                 self.intact[skey] = stored[0]
+                self.stored_by[stored[0]] = self.real_proc
                 self.bad_files.discard(stored[0])
             elif len(stored) == 0 and not solved:
                 # a correct hit on an entry another request stored: remember it
@@ -653,7 +674,7 @@ class Run:
             if c is not None:
                 raise Violation("transparent", "wrong-result", f"series op {k} step {i} field {c[0]}: {c[1]}", {"op": k, "field": c[0], "cause": ["interface"]})
             _scribble((r["grid"], r["conc"], r["flx"]))
-            key = self.step_key(j, i)
+            key = self.cwd_tag + self.step_key(j, i)
             solved, j0, j1 = trace[i] if i < len(trace) else (None, 0, 0)
             fl = self.intact.get(key)
             if fl is not None and fl not in self.bad_files and os.path.exists(os.path.join(self.run_dir, fl)):
@@ -666,11 +687,12 @@ class Run:
                 stored = self.stored_file(j0, j1)
                 if len(stored) == 1:
                     self.intact[key] = stored[0]
+                    self.stored_by[stored[0]] = self.real_proc
                     self.bad_files.discard(stored[0])
         self.log.add(k, "series", j, [arr_digest(r["flx"]) for r in out], [t[0] for t in trace])
 
     def op_damage(self, op, k):
-        skey = canon(self.rec["specs"][op["spec"]])
+        skey = self.cwd_tag + canon(self.rec["specs"][op["spec"]])
         rel = self.intact.get(skey)
         if not isinstance(rel, str) or not os.path.exists(os.path.join(self.run_dir, rel)):
             self.probe("damage_no_target")
@@ -716,13 +738,19 @@ class Run:
 
     def op_clear(self, k):
         self.states.add(f"{self.abstract_state()}|clear|")
+        if self.cache is None:
+            self.new_process()
+            self.proc -= 1
         try:
             self.cache.clear()
         except Exception as e:
             raise Violation("never-fatal", "exception", f"clear() at op {k} raised {type(e).__name__}: {e}", {"op": k, "exc": type(e).__name__})
         self.disk.verify()
-        self.intact.clear()
-        self.bad_files.clear()
+        pre = os.path.join(self.cwd_tag, CACHE_DIR) + "/"
+        for s2, fl in list(self.intact.items()):
+            if isinstance(fl, str) and fl.startswith(pre):
+                del self.intact[s2]
+        self.bad_files = {f for f in self.bad_files if not f.startswith(pre)}
         self.log.add(k, "clear", sorted(self.names(f) for f in self.entry_files()))
 
     def fork_continue(self):
@@ -736,6 +764,7 @@ class Run:
         if pid == 0:
             os.close(r)
             self.fork_w = w
+            self.real_proc += 1
             seed_tempfile((self.rec.get("seed", 0) + self.proc) & 0xFFFFFFFF)
             return
         os.close(w)
@@ -791,6 +820,17 @@ class Run:
                 self.log.add(k, "restart")
             elif kind == "clear":
                 self.op_clear(k)
+            elif kind == "chdir":
+                # the user changes the working directory between runs (another
+                # project): the default cache directory is relative to it
+                self.cwd_tag = "" if self.cwd_tag else "sub"
+                d = os.path.join(self.run_dir, self.cwd_tag)
+                os.makedirs(d, exist_ok=True)
+                os.chdir(d)
+                self.cache = None  # the direct-request cache object is created when first needed
+                self.proc += 1
+                self.probe("chdir")
+                self.log.add(k, "chdir", self.cwd_tag)
             elif kind == "damage":
                 self.op_damage(op, k)
             else:
@@ -880,7 +920,10 @@ def _store_entry(spec, run_dir):
     disk.install()
     try:
         c = GreensFunctionCache(CACHE_DIR)
-        solve(**args, cache=c)
+        try:
+            solve(**args, cache=c)
+        except Exception as e:
+            raise Violation("never-fatal", "exception", f"a plain storing request raised {type(e).__name__}: {str(e)[:200]}", {"exc": type(e).__name__})
         disk.verify()
         journal = list(disk.journal)
     finally:
@@ -1096,7 +1139,10 @@ def execute_xproc(job):
         os.chdir(job["run_dir"])
         args = S.build_args(spec)
         exp = solve(**args, cache=None)
-        solve(**args, cache=GreensFunctionCache(CACHE_DIR))
+        try:
+            solve(**args, cache=GreensFunctionCache(CACHE_DIR))
+        except Exception as e:
+            raise Violation("never-fatal", "exception", f"a plain storing request raised {type(e).__name__}: {str(e)[:200]}", {"exc": type(e).__name__})
         want = [arr_digest(g) for g in exp[0]] + [arr_digest(exp[1]), arr_digest(exp[2])]
         for hs in job["hashseeds"]:
             env = dict(os.environ, PYTHONHASHSEED=str(hs), PYTHONDONTWRITEBYTECODE="1", NUMBA_CACHE_DIR=job["numba_dir"])
@@ -1143,7 +1189,10 @@ def execute_many(job):
         n = job["n"]
         for k in range(n):
             s2 = dict(spec, meas_pt=[spec["meas_pt"][0] + 0.5 * k, spec["meas_pt"][1]])
-            solve(**S.build_args(s2), cache=c)
+            try:
+                solve(**S.build_args(s2), cache=c)
+            except Exception as e:
+                raise Violation("never-fatal", "exception", f"storing request {k} of {n} raised {type(e).__name__}: {str(e)[:200]}", {"exc": type(e).__name__})
         for k in (0, n // 2, n - 1):
             s2 = dict(spec, meas_pt=[spec["meas_pt"][0] + 0.5 * k, spec["meas_pt"][1]])
             args = S.build_args(s2)
@@ -1304,7 +1353,7 @@ def plan(tier, master_seed, runs=None):
         for lo in range(0, 100, 10):
             enum_jobs.append({"kind": "enum_kill", "spec": spec, "lo": lo, "hi": lo + 10})
         if e == 0:
-            enum_jobs.append({"kind": "many", "spec": spec, "n": 130 if tier == "quick" else 600})
+            enum_jobs.append({"kind": "many", "spec": spec, "n": 700 if tier == "quick" else 3000, "timeout": 900})
         if e < 2:
             enum_jobs.append({"kind": "xproc", "spec": spec, "hashseeds": [1 + e, 4242 + e], "timeout": 900})
     # enumeration first: it is the exhaustive part
